@@ -90,9 +90,12 @@ theorem C01_owner_change (s s' : St) (ev : Ev) (m : Nat) (h : step s ev = .ok s'
   all_goals (exfalso; apply hne)
   case semSub sm n ok b => simp only [effSemSub]; split <;> simp [setTh, hm]
   case sleep t q dl =>
-    simp only [effSleep]; cases q <;> (simp only []; split <;> simp [setTh, hm])
+    cases q <;> simp [effSleep, enqueue, setTh, hm]
   case intrNoSleep t st e b => simp only [effIntrNoSleep]; split <;> simp [setTh, hm]
   case wakeTimeout t => simp [effWakeTimeout, dequeue, setTh, hm]; split <;> simp [hm]
+  case rwInit rw cv => simp [effRwInit, hm]
+  case retRwLock t rw w r => simp only [effRetRwLock]; split; simp [setTh, hm]; split <;> simp [setTh, hm]
+  case callRwUnlock t rw => simp only [effCallRwUnlock]; split <;> simp [hm]
   case wakeIntr t e b =>
     have hw : (wokenState s0 t e).mutex = s.mutex := by simp only [wokenState, dequeue]; split <;> simp [setTh, hm]
     rcases effWakeIntr_form s0 t e b with hf | hf <;> rw [hf] <;> simp [setTh, hw]
@@ -248,6 +251,14 @@ theorem eff_invQ (s : St) (e : Ev) (hp : pre s e = none) (h : InvQ s) : InvQ (ef
   case tick n => exact ⟨h.mem, h.nodup, h.held⟩
   case semInit sm c io => exact ⟨h.mem, h.nodup, h.held⟩
   case mutexInit m => exact ⟨h.mem, h.nodup, h.held⟩
+  case rwInit rw cv => exact ⟨h.mem, h.nodup, h.held⟩
+  case retRwLock t rw w r =>
+    have h1 : InvQ (setTh s t { s.th t with op := .none }) :=
+      invQ_setTh_same s h t _ rfl rfl (fun m to ho => by simp at ho)
+    simp only [effRetRwLock]; split
+    · exact h1
+    · split <;> exact ⟨h1.mem, h1.nodup, h1.held⟩
+  case callRwUnlock t rw => simp only [effCallRwUnlock]; split <;> exact ⟨h.mem, h.nodup, h.held⟩
   case semAdd sm n c => exact ⟨h.mem, h.nodup, h.held⟩
   case semSub sm n ok by_ =>
     have h1 : InvQ (setTh s by_ { s.th by_ with subOk := ok }) :=
@@ -359,8 +370,7 @@ theorem eff_invQ (s : St) (e : Ev) (hp : pre s e = none) (h : InvQ s) : InvQ (ef
                 · exact absurd hm htt
               · simp only [hk, if_false] at hm; exact hm
             exact h.held m t' to hm' hop
-    unfold effSleep
-    cases q <;> (simp only [] at key ⊢; split <;> exact ⟨key.mem, key.nodup, key.held⟩)
+    cases q <;> exact ⟨key.mem, key.nodup, key.held⟩
   case wakeTimeout t =>
     exact wake_invQ s h t { s.th t with st := .run, q := none } rfl rfl rfl
   case wakeIntr t e by_ =>
